@@ -41,8 +41,8 @@ ASSUMPTIONS = [
     "to []: payload and getter are compared modulo None == []",
     "values handed to setters are in the documented form (lists for unicodes / orders, integers for metrics, "
     "4-tuples or UFO strings for colours); floats are compared with a 1e-9 tolerance",
-    "renaming a glyph or layer onto an existing name, and cyclic component references, are outside the domain "
-    "(the generator skips them)",
+    "renaming a glyph or layer onto an existing name, deleting the default layer, and cyclic component references "
+    "are outside the domain (the adaptor skips them)",
     "a composite assignment (glyph.anchors = ..., font.guidelines = ..., copyDataFromGlyph) stopped half way by a "
     "rejected element never releases the hold it imposed on itself (the object stays mute); the harness releases "
     "that hold after the failed call and does not judge the call",
@@ -122,6 +122,14 @@ def _eq(a, b):
         return False
 
 
+def _origin(ev, site):
+    """the call site a delivery is attributed to: an Image.ColorChanged that carries the layer's payload
+    (keys oldColor/newColor) originates in `layer.color = ...` whenever it is delivered"""
+    if ev is not None and ev.name == "Image.ColorChanged" and isinstance(ev.data, dict) and "oldColor" in ev.data:
+        return "Layer.color="
+    return site
+
+
 def membership_snapshot(world):
     """{(id(container), will-name-family): set of subjects} before an operation"""
     font = world.font
@@ -166,7 +174,7 @@ def oracle(world, op, status, snap, members, events):
         if clause in ("will-late", "will-repeated"):
             sig = "C08/%s/%s" % (clause, site)
         else:
-            sig = "C08/%s/%s/%s" % (clause, ev.name if ev is not None else "-", site)
+            sig = "C08/%s/%s/%s" % (clause, ev.name if ev is not None else "-", _origin(ev, site))
         d = dict(clause="C08/" + clause, signature=sig, detail=detail,
                  op=op, status=status, notification=None if ev is None else ev.name)
         d.update({k: repr(x)[:200] for k, x in kw.items()})
@@ -294,7 +302,7 @@ def held_oracle(op, bracket, events):
                 cands.append(snap[(id(ev.sender), ATTR[ev.name])])
         if known and not any(_eq(norm(ev.old), norm(c)) for c in cands):
             viol.append(dict(clause="C08/payload-old", detail="under a user hold",
-                             signature="C08/payload-old/%s/%s" % (ev.name, op_name(op)),
+                             signature="C08/payload-old/%s/%s" % (ev.name, _origin(ev, op_name(op))),
                              op=op, notification=ev.name, payload_old=repr(ev.old)[:200], candidates=repr(cands)[:300]))
         if ev.name not in WILL:
             seen_new.setdefault(key, []).append(ev.new)
